@@ -69,57 +69,7 @@ func c13model(c *Ctx) {
 		}
 	}
 	if simpleF == nil {
-		// by shape: a bool function of a segment (two points, or a value of two point fields) and of
-		// paths (a path, a list of paths, or a variadic list)
-		isPts := func(t types.Type) bool {
-			sl, ok := t.Underlying().(*types.Slice)
-			return ok && types.Identical(sl.Elem(), m.ptT)
-		}
-		isPaths := func(t types.Type) bool {
-			if isPts(t) {
-				return true
-			}
-			sl, ok := t.Underlying().(*types.Slice)
-			return ok && isPts(sl.Elem())
-		}
-		isSeg := func(t types.Type) bool {
-			st, ok := t.Underlying().(*types.Struct)
-			if !ok || st.NumFields() != 2 {
-				return false
-			}
-			return types.Identical(st.Field(0).Type(), m.ptT) && types.Identical(st.Field(1).Type(), m.ptT)
-		}
-		for _, f := range c.P.RepoFuncs() {
-			if c.P.DeclPkg(f) != c.P.Pkg("geom") || c.P.Decl(f) == nil {
-				continue
-			}
-			sig := f.Type().(*types.Signature)
-			if sig.Recv() != nil || sig.Results().Len() != 1 || sig.Params().Len() < 2 {
-				continue
-			}
-			if rb, ok := sig.Results().At(0).Type().Underlying().(*types.Basic); !ok || rb.Kind() != types.Bool {
-				continue
-			}
-			n := sig.Params().Len()
-			rest := 0
-			switch {
-			case isSeg(sig.Params().At(0).Type()):
-				rest = 1
-			case n >= 3 && types.Identical(sig.Params().At(0).Type(), m.ptT) && types.Identical(sig.Params().At(1).Type(), m.ptT):
-				rest = 2
-			default:
-				continue
-			}
-			ok := rest < n
-			for i := rest; i < n; i++ {
-				if !isPaths(sig.Params().At(i).Type()) {
-					ok = false
-				}
-			}
-			if ok && (simpleF == nil || c.P.FuncName(f) < c.P.FuncName(simpleF)) {
-				simpleF = f
-			}
-		}
+		simpleF = c13simplicityByShape(c, m.ptT)
 	}
 	lsSimplify, _, _ := types.LookupFieldOrMethod(m.lsT, true, c.P.Pkg("geom").Types, "Simplify")
 	polySimplify, _, _ := types.LookupFieldOrMethod(m.polyT, true, c.P.Pkg("geom").Types, "Simplify")
@@ -336,6 +286,9 @@ func c13model(c *Ctx) {
 			var ends []oval
 			var pathArgs []oval
 			for _, av := range args {
+				if pp, isPtr := av.(oPtr); isPtr && pp.s != nil {
+					av = pp.s // a segment handed over by pointer
+				}
 				if st, ok := av.(*oStruct); ok && st != nil {
 					if _, isPt := st.fields["X"]; isPt && len(ends) < 2 {
 						ends = append(ends, st)
@@ -896,4 +849,63 @@ func showAnswers(r *c13run) string {
 		return "(every vertex within tolerance, every shortcut simple)"
 	}
 	return "(beyond tolerance / not simple for: " + strings.Join(parts, "; ") + ")"
+}
+
+// c13simplicityByShape: the simplicity test when its name is gone — a bool function of a segment
+// (two points, or a value of two point fields) and of paths (a path, a list of paths, or a
+// variadic list); the first by name when several qualify.
+func c13simplicityByShape(c *Ctx, ptT types.Type) *types.Func {
+	var simpleF *types.Func
+	// by shape: a bool function of a segment (two points, or a value of two point fields) and of
+	// paths (a path, a list of paths, or a variadic list)
+	isPts := func(t types.Type) bool {
+		sl, ok := t.Underlying().(*types.Slice)
+		return ok && types.Identical(sl.Elem(), ptT)
+	}
+	isPaths := func(t types.Type) bool {
+		if isPts(t) {
+			return true
+		}
+		sl, ok := t.Underlying().(*types.Slice)
+		return ok && isPts(sl.Elem())
+	}
+	isSeg := func(t types.Type) bool {
+		st, ok := t.Underlying().(*types.Struct)
+		if !ok || st.NumFields() != 2 {
+			return false
+		}
+		return types.Identical(st.Field(0).Type(), ptT) && types.Identical(st.Field(1).Type(), ptT)
+	}
+	for _, f := range c.P.RepoFuncs() {
+		if c.P.DeclPkg(f) != c.P.Pkg("geom") || c.P.Decl(f) == nil {
+			continue
+		}
+		sig := f.Type().(*types.Signature)
+		if sig.Recv() != nil || sig.Results().Len() != 1 || sig.Params().Len() < 2 {
+			continue
+		}
+		if rb, ok := sig.Results().At(0).Type().Underlying().(*types.Basic); !ok || rb.Kind() != types.Bool {
+			continue
+		}
+		n := sig.Params().Len()
+		rest := 0
+		switch {
+		case isSeg(sig.Params().At(0).Type()):
+			rest = 1
+		case n >= 3 && types.Identical(sig.Params().At(0).Type(), ptT) && types.Identical(sig.Params().At(1).Type(), ptT):
+			rest = 2
+		default:
+			continue
+		}
+		ok := rest < n
+		for i := rest; i < n; i++ {
+			if !isPaths(sig.Params().At(i).Type()) {
+				ok = false
+			}
+		}
+		if ok && (simpleF == nil || c.P.FuncName(f) < c.P.FuncName(simpleF)) {
+			simpleF = f
+		}
+	}
+	return simpleF
 }
